@@ -160,6 +160,23 @@ pub fn judge(c: &Case, st: &mut Stats) -> Verdict {
             }
         }
     }
+    // "the text it formats to" is one text per value: after the same endpoints have arrived in ANOTHER legal spelling (all
+    // eight groups written out in upper case with leading zeros) through every text entry point, the value still formats
+    // to the line it formatted to before
+    if let RefAddr::Tcp6 { src, dst, sport, dport } = a {
+        let full = |g: &[u16; 8]| g.iter().map(|v| format!("{:04X}", v)).collect::<Vec<_>>().join(":");
+        let other = format!("PROXY TCP6 {} {} {} {}\r\nGET / HTTP/1.1\r\n", full(src), full(dst), sport, dport);
+        if other.find('\r').map_or(false, |p| p + 2 <= 107) {
+            let _ = imp::v1_fromstr_addr(&other);
+            let _ = imp::v1_fromstr_header(&other);
+            let _ = imp::v1_str(&other);
+            let _ = imp::v1_bytes(other.as_bytes());
+            match crate::engine::guard(|| lib.to_string()) {
+                Ok(again) if again == s => {}
+                other_out => return fail("formats-differently-after-a-parse", format!("{:?} again", s), imp::short(&format!("{:?}", other_out))),
+            }
+        }
+    }
     // formatting into a sink that runs out of room fails cleanly - only a prefix of the line has been written - and
     // leaves no trace: the value formats to the same line afterwards
     {
@@ -261,6 +278,12 @@ pub fn judge(c: &Case, st: &mut Stats) -> Verdict {
             with.push_str(unit);
         }
         let want_text = s.as_str();
+        // the way it really arrives: the receiver has looked at the buffer before - when it ended in front of the CR, right
+        // behind it, in the middle of the line - and was told to wait each time
+        for cut in [s.len() / 2, s.len() - 2, s.len() - 1] {
+            let _ = imp::v1_str(&with[..cut]);
+            let _ = imp::v1_bytes(&with.as_bytes()[..cut]);
+        }
         match imp::v1_str(&with) {
             Ok(Ok(h)) if imp::addr1(&h.addresses) == *a && h.header == want_text => {}
             other => return fail("roundtrip-with-payload:try_from(&str)", format!("Ok with {:?} and header text == the line", a), imp::short(&format!("{:?}", other))),
